@@ -750,42 +750,55 @@ func (d *Decoder) decodeArrayToSlice(rv reflect.Value, additional []byte) error 
 	if length > math.MaxInt || length >= MaxArrayDecodeLength {
 		return fmt.Errorf("array exceeds max size: %d", length)
 	}
-	slice := rv
-	switch slice.Kind() {
+	switch rv.Kind() {
 	case reflect.Slice:
-		// Set slice to the correct length
-		slice.Grow(int(length))
-		slice.SetLen(int(length))
+		return d.decodeArrayItems(rv, rv.Type(), int(length))
+
+	case reflect.Interface:
+		return d.decodeArrayItems(rv, rv.Elem().Type(), int(length))
 
 	case reflect.Array:
 		// Check array is long enough and clear extra elements
 		if rv.Len() < int(length) {
 			return fmt.Errorf("fixed-size array is too small: must be at least length %d", length)
 		}
-		zeroVal := reflect.Zero(slice.Type().Elem())
+		zeroVal := reflect.Zero(rv.Type().Elem())
 		for i := int(length); i < rv.Len(); i++ {
-			slice.Index(i).Set(zeroVal)
+			rv.Index(i).Set(zeroVal)
 		}
 
-	case reflect.Interface:
-		slice.Set(reflect.MakeSlice(slice.Elem().Type(), int(length), int(length)))
-		slice = slice.Elem()
+		// Decode each item into the fixed-size array
+		itemType := rv.Type().Elem()
+		for i := range int(length) {
+			newVal := reflect.New(itemType)
+			if err := d.Decode(newVal.Interface()); err != nil {
+				return fmt.Errorf("error decoding array item %d: %w", i, err)
+			}
+			rv.Index(i).Set(newVal.Elem())
+		}
+		return nil
 
 	default:
 		return fmt.Errorf("%w: expected a slice type",
 			ErrUnsupportedType{typeName: rv.Type().String()})
 	}
+}
 
-	// Decode each item into the correctly sized slice
-	itemType := slice.Type().Elem()
-	for i := range int(length) {
+// decodeArrayItems decodes length items into a new slice of the given type
+// and stores it in rv. The slice grows as items are decoded, so the memory
+// used is bounded by the input actually read and not by the length that the
+// array header merely claims.
+func (d *Decoder) decodeArrayItems(rv reflect.Value, sliceType reflect.Type, length int) error {
+	items := reflect.MakeSlice(sliceType, 0, 0)
+	itemType := sliceType.Elem()
+	for i := range length {
 		newVal := reflect.New(itemType)
 		if err := d.Decode(newVal.Interface()); err != nil {
 			return fmt.Errorf("error decoding array item %d: %w", i, err)
 		}
-		slice.Index(i).Set(newVal.Elem())
+		items = reflect.Append(items, newVal.Elem())
 	}
-
+	rv.Set(items)
 	return nil
 }
 
